@@ -250,7 +250,8 @@ def unit_unbounded(model):
     validation prefix of rate() (up to its first effectful statement, the deep copy) accepts
     iff the whole call is well-formed - with _check_teams replaced by the contract just proved."""
     from .. import loops, scan, tactics
-    from ..loops import CutLoops, LoopSpec, LOOP_REBINDS, make_loop_factory
+    from ..loops import CutCheckLoops, LOOP_REBINDS, DYN_REBINDS, DYN_CUTS
+    from ..symrt import UncutLoop
     import ast
     recs = []
     relpath = extract.MODEL_FILES[model]
@@ -281,25 +282,32 @@ def unit_unbounded(model):
         def team(k):
             t = AnyObj("team", ctx, own_cls=R, tag=ttag(k), length=tlen(k), elem=lambda q, k=k: player(k, q), assume_domain=False)
             t.__dict__["idx"] = k
+            # contract of a validation loop over this team: the players before position n are own ratings
+            t.__dict__["loop_inv"] = lambda n, k=k: z3.ForAll([p], z3.Implies(z3.And(p >= 0, p < n), ptag(k, p) == OWN))
             return t
         teams = AnyObj("teams", ctx, own_cls=R, elem=team)
+        # ... over the teams: the teams before position n are well-formed
+        teams.__dict__["loop_inv"] = lambda n: z3.ForAll([i], z3.Implies(z3.And(i >= 0, i < n), wf_team(i)))
         ctx.assume(z3.ForAll([i], z3.And(ttag(i) >= 0, ttag(i) <= 10, tlen(i) >= 0)))
         ctx.assume(z3.ForAll([i, p], z3.And(ptag(i, p) >= 0, ptag(i, p) <= 10)))
         wf = z3.And(teams.tag == LIST, teams.length >= 2, z3.ForAll([i], z3.Implies(z3.And(i >= 0, i < teams.length), wf_team(i))))
         return teams, wf
 
     # ---------------- _check_teams
+    # The loop contracts are attached to the *arguments* (world()), not to loop positions: every
+    # `for` loop of the module whose body only inspects and raises is cut at run time when its
+    # iterable is one of those arguments - wherever the loop stands (in rate, in a helper).  A loop
+    # over them that is outside that fragment stops the unbounded proof (UncutLoop): it is then
+    # reported as not attempted and the shape-bounded obligations of the same clauses decide.
     q = f"{model}._check_teams"
-    specs = {
-        (q, 1): LoopSpec([], lambda k, st, lc: z3.ForAll([i], z3.Implies(z3.And(i >= 0, i < k), wf_team(i)))),
-        (q, 2): LoopSpec([], lambda k, st, lc: z3.ForAll([p], z3.Implies(z3.And(p >= 0, p < k), ptag(lc.iterable.idx, p) == OWN))),
-    }
-    tr = CutLoops(specs)
+
+    def not_attempted(what, e):
+        return driver.rec(f"C13/{model}/{what}/unbounded-proof", "skipped", "-", 0, kind="note", fn=f"{model}.{what}",
+                          note=f"{e}; decided for the listed container lengths only")
+    tr = CutCheckLoops()
     S = extract.Scratch(model, transforms={relpath: [tr]})
     S.ns.update(LOOP_REBINDS)
-    S.ns["__pyvc_loop__"] = make_loop_factory(specs)
-    if sorted(tr.cut) != sorted(specs):
-        return [driver.rec(f"C13/{model}/_check_teams/loops-found", "open", "ast", 0, fn=q, note=f"cut {tr.cut}")]
+    S.ns.update(DYN_REBINDS)
     ctx = Ctx("U", feas_timeout_ms=1500)
     counts = {"return": 0, "raise": 0}
 
@@ -315,22 +323,24 @@ def unit_unbounded(model):
             counts["raise"] += 1
             ctx.oblige(f"C13/{model}/_check_teams/raises-only-TypeError-or-ValueError", type(out[1]) in (TypeError, ValueError), meta=dict(meta, note=repr(out[1])[:100]))
             ctx.oblige(f"C13/{model}/_check_teams/raises-only-if-malformed", z3.Not(wf), meta=meta)
-    explore(ctx, run)
     from .util import settle
-    recs += _merge_canaries_open(settle(ctx.all_obls, mode="U", unbounded=True, timeout_ms=30000, canary_timeout_ms=2000))
-    if not counts["return"] or not counts["raise"]:
-        recs.append(driver.rec(f"C13/{model}/_check_teams/both-outcomes-reachable", "open", "explorer", 0, kind="vacuity", note=str(counts)))
+    del DYN_CUTS[:]
+    check_teams_proved = True
+    try:
+        explore(ctx, run)
+        recs += _merge_canaries_open(settle(ctx.all_obls, mode="U", unbounded=True, timeout_ms=30000, canary_timeout_ms=2000))
+        if not counts["return"] or not counts["raise"] or not DYN_CUTS:
+            recs.append(driver.rec(f"C13/{model}/_check_teams/both-outcomes-reachable", "open", "explorer", 0, kind="vacuity", note=f"{counts}, loop cuts {len(DYN_CUTS)}"))
+    except UncutLoop as e:
+        check_teams_proved = False
+        recs.append(not_attempted("_check_teams", e))
 
     # ---------------- validation prefix of rate()
     q2 = f"{model}.rate"
-    specs2 = {
-        (q2, 1): LoopSpec([], lambda k, st, lc: z3.ForAll([j], z3.Implies(z3.And(j >= 0, j < k), isnum(rtag(j))))),
-        (q2, 2): LoopSpec([], lambda k, st, lc: z3.ForAll([j], z3.Implies(z3.And(j >= 0, j < k), isnum(stag(j))))),
-    }
-    tr2 = CutLoops(specs2)
+    tr2 = CutCheckLoops()
     S2 = extract.Scratch(model, transforms={relpath: [tr2]})
     S2.ns.update(LOOP_REBINDS)
-    S2.ns["__pyvc_loop__"] = make_loop_factory(specs2)
+    S2.ns.update(DYN_REBINDS)
 
     class _Copy:
         @staticmethod
@@ -353,6 +363,9 @@ def unit_unbounded(model):
         ctx.assume(z3.ForAll([j], z3.And(rtag(j) >= 0, rtag(j) <= 10, stag(j) >= 0, stag(j) <= 10)))
         ranks = AnyObj("ranks", ctx, own_cls=R, elem=lambda k: AnyObj("rank", ctx, own_cls=R, tag=rtag(k), assume_domain=False))
         scores = AnyObj("scores", ctx, own_cls=R, elem=lambda k: AnyObj("score", ctx, own_cls=R, tag=stag(k), assume_domain=False))
+        # contract of a validation loop over a vector: the elements before position n are numbers
+        ranks.__dict__["loop_inv"] = lambda n: z3.ForAll([j], z3.Implies(z3.And(j >= 0, j < n), isnum(rtag(j))))
+        scores.__dict__["loop_inv"] = lambda n: z3.ForAll([j], z3.Implies(z3.And(j >= 0, j < n), isnum(stag(j))))
         m, _ = game.mk_model(ctx, S2)
 
         def vec_ok(o, tagf):
@@ -372,15 +385,22 @@ def unit_unbounded(model):
         counts2["raise"] += 1
         ctx.oblige(f"C13/{model}/rate/prefix-raises-only-TypeError-or-ValueError", type(out[1]) in (TypeError, ValueError), meta=dict(meta, note=repr(out[1])[:100]))
         ctx.oblige(f"C13/{model}/rate/prefix-rejects-only-malformed-calls", z3.Not(valid), meta=meta)
-    explore(ctx, run2)
-    recs += settle(ctx.all_obls, mode="U", unbounded=True, timeout_ms=30000, canary_timeout_ms=2000)
-    if not counts2["accept"] or not counts2["raise"]:
-        recs.append(driver.rec(f"C13/{model}/rate/prefix-both-outcomes-reachable", "open", "explorer", 0, kind="vacuity", note=str(counts2)))
+    del DYN_CUTS[:]
+    try:
+        if not check_teams_proved:
+            raise UncutLoop("the contract of _check_teams, which the prefix proof uses, was not proved for every length")
+        explore(ctx, run2)
+        recs += settle(ctx.all_obls, mode="U", unbounded=True, timeout_ms=30000, canary_timeout_ms=2000)
+        if not counts2["accept"] or not counts2["raise"] or not DYN_CUTS:
+            recs.append(driver.rec(f"C13/{model}/rate/prefix-both-outcomes-reachable", "open", "explorer", 0, kind="vacuity", note=f"{counts2}, loop cuts {len(DYN_CUTS)}"))
+    except UncutLoop as e:
+        recs.append(not_attempted("rate", e))
 
     # ---------------- frame of the prefix: syntactic, for any number of objects
     tree = extract.parse(relpath)
     fn = extract.find_function(tree, f"{model}.rate")
-    f, npre = scan.prefix_is_pure(fn, allowed_calls=("isinstance", "len", "ValueError", "TypeError", "self._check_teams"))
+    cls_node = next((n for n in tree.body if isinstance(n, ast.ClassDef) and n.name == model), None)
+    f, npre = scan.prefix_is_pure(fn, allowed_calls=("isinstance", "len", "ValueError", "TypeError", "self._check_teams"), cls=cls_node)
     recs.append(driver.rec(f"C13/{model}/rate/prefix-writes-nothing", "discharged" if not f and npre >= 2 else "refuted", "ast-scan", 0, fn=q2, unbounded=True,
                            note=str(f[:4]) if f else f"{npre} prefix statements", replay={"kind": "c13_unbounded", "model": model} if f else None))
     fn2 = extract.find_function(tree, f"{model}._check_teams")
